@@ -52,6 +52,10 @@ def check(prog: Program, run: Run) -> None:
     from ..jinjamodel import TemplateModel
     from . import tagpaths
     tagpaths.check(prog, TemplateModel(prog.repo), run, "C09.R5", only=lambda c: c == "ParentRef")
+    run.rule("C09.R6", "what a layer defines LOCALLY is read from its raw layer, never from a "
+             "computed (already merged) view: a second refresh() would otherwise treat inherited "
+             "objects as local ones", floor=6)
+    _local_getters(prog, run)
     _priorities(prog, run)
     _parents_untouched(prog, run)
     common.g1_literal_attrs(prog, run, "C09.G1", ["odxtools/diaglayers/hierarchyelement.py",
@@ -334,6 +338,44 @@ def _merge(prog: Program, run: Run) -> None:
         run.ok(R, C, "returns the merged objects", f"{f.module.rel}:{rets[0].lineno}")
     else:
         run.violation(R, C, "return", "does not return the merged objects", f.loc)
+
+
+def _local_getters(prog: Program, run: Run) -> None:
+    R = "C09.R6"
+    getters: List[Tuple[str, ast.AST, object]] = []
+    for cname in ("DiagLayer", "HierarchyElement"):
+        ci = prog.cls(cname)
+        for m in ci.methods.values():
+            if m.name.startswith("_get_local_"):
+                getters.append((m.qual, m.node, m))
+            if m.name.startswith("_compute_available_"):
+                for x in ast.walk(m.node):
+                    if isinstance(x, (ast.FunctionDef, ast.Lambda)) and x is not m.node and (
+                            isinstance(x, ast.Lambda) or "local" in x.name):
+                        getters.append((f"{m.qual}.<local getter>", x, m))
+    if len(getters) < 6:
+        raise AnalysisError(f"only {len(getters)} local getters found")
+    for qual, node, m in getters:
+        a = node.args
+        ps = [x.arg for x in a.posonlyargs + a.args]
+        if not ps:
+            continue
+        root = ps[0]
+        bad = []
+        for x in ast.walk(node):
+            if isinstance(x, ast.Attribute) and isinstance(x.value, ast.Name) and \
+                    x.value.id == root and not (x.attr.endswith("_raw") or
+                                                x.attr.startswith("_get_local_")):
+                bad.append(x)
+        if bad:
+            run.violation(R, qual, f"reads-computed-view-{bad[0].attr}",
+                          f"`{ast.unparse(bad[0])}` is the layer's computed view (local + "
+                          "inherited objects after the last refresh); the locally defined "
+                          f"objects are in `{root}.diag_layer_raw`: after a second refresh() "
+                          "objects inherited earlier are kept as if they were local",
+                          f"{m.module.rel}:{bad[0].lineno}", ast.unparse(bad[0]))
+        else:
+            run.ok(R, qual, "reads the raw layer only", f"{m.module.rel}:{node.lineno}")
 
 
 def _lambda_attr(e: ast.AST) -> Optional[str]:
